@@ -176,6 +176,14 @@ Theorem C13_sig_tables_agree : forall w o, In (w, o) covered_ops ->
 Proof. exact sig_tables_agree_each. Qed.
 Print Assumptions C13_sig_tables_agree.
 
+(* the generated counterpart of the frame theorem's clause "declared-shared buffers are never written": the fields whose
+   existing container an in-place method updates (x.f op= e) are disjoint from the fields any operation of the same world
+   hands on to its result (chains: site buffers of a real conj, qntot of from_mps, the prefactor object; trees: the prefactor
+   object, a 0-d ndarray after load) *)
+Theorem C13_inplace_writes_avoid_shared : inplace_ok Chain = true /\ inplace_ok Tree = true.
+Proof. exact inplace_writes_avoid_shared. Qed.
+Print Assumptions C13_inplace_writes_avoid_shared.
+
 Theorem C13_gen_ok_operand_sound : forall w o fn v p r, gen_ok w o = true -> In (fn, v, p, Operand) (op_rows w o) ->
   find_row (fn, v, p, Operand) = Some r ->
   (forall x, In x (o_writes r) -> benign (pw_kind x)) /\
@@ -234,5 +242,5 @@ Proof. exact triv_dec_factor. Qed.
 Example C13_op_table_nonvacuous :
   length oprows = 75 /\ length covered_ops = 41 /\
   fset_eqb (s_rewrite (gsig_of Chain Add)) [FSite; FCoeff; FMeta] = true /\
-  s_share (gsig_of Chain Conj) = [FSite] /\ s_share (gsig_of Tree ToComplex) = [].
+  fset_eqb (s_share (gsig_of Chain Conj)) [FSite; FCoeff] = true /\ s_share (gsig_of Tree ToComplex) = [FCoeff].
 Proof. vm_compute. repeat split; reflexivity. Qed.
